@@ -1,5 +1,5 @@
 //@unit sm2_limbs
-//@serves C11
+//@serves C03 C04 C05 C06 C11 C14 C15 C19
 //@source gm-sm2/src/u256.rs
 //@assume byteorder::{ReadBytesExt, WriteBytesExt} on std::io::Cursor / Vec<u8> behave as the model in section `spec` (big-endian fixed-width reads/writes; Err iff fewer bytes remain)
 //@include-spec sm2_math
